@@ -1,4 +1,5 @@
 import RexModel.Async.Machine
+import RexModel.Async.Faithful
 
 /-! # C13 — recording is faithful and never changes the execution
 
@@ -99,5 +100,40 @@ theorem max_records_keeps_first (full : List Row) (maxRecords : Nat) :
       rw [ih _ hacc, this]; simp
 
 end Rows
+
+/-! ## The threaded runtime's step record is faithful, under every schedule (machine level) -/
+
+section Faithful
+variable {T : Type} [TimeLike T]
+
+/-- **Every recorded step is faithful**: in every state the asynchronous machine can reach — any graph, delay streams, step function,
+interleaving of the node, connection and user threads — each row of a node's step record has as its output the node's step function
+applied to exactly what the row says the step used: its sequence number, start time, rng index, state before and input windows. For
+the supervisor this holds although the result is computed by the user and travels back through the observation/action handshake. -/
+theorem C13_recorded_steps_are_faithful (cfg : Cfg T) (n : Nat) (nc : NodeCfg T) (hnode : cfg.node n = some nc)
+    {σ : List Rule} {s : MSt T} (h : Rex.Conf.Run (machine cfg).toNet.sys (initState cfg) σ s) :
+    ∀ r : StepRec T, Val.stepRec r ∈ s.q (.node n .record) → r.output = some (cfg.f (sinOf n r)).output := by
+  intro r hr
+  have hi := finv_run cfg n nc hnode h (finv_init cfg n nc hnode)
+  apply hi.faithful r
+  show r ∈ stepsOf (s.q (.node n .record))
+  simp only [stepsOf, List.mem_filterMap]
+  exact ⟨Val.stepRec r, hr, rfl⟩
+
+/-- **The recorded states chain**: the state recorded before the first step is the node's initial state, the state recorded before
+every later step is the state the previous recorded step returned, and the node's current state is the one returned by its last
+recorded step — no step ever starts from a stale or foreign state, whatever the schedule. -/
+theorem C13_recorded_states_chain (cfg : Cfg T) (n : Nat) (nc : NodeCfg T) (hnode : cfg.node n = some nc)
+    {σ : List Rule} {s : MSt T} (h : Rex.Conf.Run (machine cfg).toNet.sys (initState cfg) σ s) :
+    StateChain cfg n nc.initState (stepsOf (s.q (.node n .record))) ∧
+    (s.priv (.step n)).state = lastState cfg n nc.initState (stepsOf (s.q (.node n .record))) := by
+  have hi := finv_run cfg n nc hnode h (finv_init cfg n nc hnode)
+  exact ⟨hi.chain, hi.cur⟩
+
+/-- non-vacuity: a chain of two rows -/
+example (cfg : Cfg T) (n : Nat) (r1 r2 : StepRec T) (h1 : r1.stateBefore = 5) (h2 : r2.stateBefore = retState cfg n r1) :
+    StateChain cfg n 5 [r1, r2] := ⟨h1, h2, trivial⟩
+
+end Faithful
 
 end Rex.C13
